@@ -232,6 +232,7 @@ pub fn run(tier: Tier, seed: u64) -> i32 {
         let mut b = Builder::new();
         let max_rows = tier.pick(300usize, 600usize);
         let mut seen: std::collections::BTreeSet<(u8, usize)> = Default::default();
+        let mut cur_scalars = 0usize;
         while b.rows() < max_rows {
             let r = rng.next_u32() as usize % b.nregs();
             match si % 3 {
@@ -244,7 +245,8 @@ pub fn run(tier: Tier, seed: u64) -> i32 {
                 1 => {
                     // one more distinct selector tuple (and one or two fresh scalars:
                     // on the ZERO register the solved q_c is 0, already in the dictionary)
-                    let r = if rng.next_u32() % 2 == 0 { 0 } else { r };
+                    // (never step over a boundary size of the scalar collection)
+                    let r = if boundary(cur_scalars + 1) || rng.next_u32() % 2 == 0 { 0 } else { r };
                     let mut sel: [BlsScalar; 6] = [BlsScalar::zero(), rand_scalar(&mut rng), BlsScalar::zero(), BlsScalar::zero(), BlsScalar::zero(), BlsScalar::zero()];
                     build::solve_qc(&mut sel, b.val(r), b.val(r), b.val(r), b.val(r), BlsScalar::zero());
                     b.push(Op::Gate { s: sel, pi: Pi::None, w: [r, r, r, r] }).unwrap();
@@ -270,6 +272,7 @@ pub fn run(tier: Tier, seed: u64) -> i32 {
                 return;
             };
             let counts = [cc0.public_inputs.len(), cc0.scalars.len(), cc0.polynomials.len(), cc0.constraints.len()];
+            cur_scalars = counts[1];
             let names = ["public_inputs", "scalars", "polynomials", "constraints"];
             let mut hit = Vec::new();
             for (k, n) in counts.iter().enumerate() {
